@@ -132,7 +132,7 @@ func runC12(c *Ctx) {
 		if hl == 0 && r.Bool() {
 			p.HashValue = []byte{}
 		}
-		p.PreimageContentType = mon.Pick[any](r, nil, nil, "text/plain", uint64(50), uint8(1), int64(60), int(7), int64(-3), 2.5, []byte("x"), true)
+		p.PreimageContentType = mon.Pick[any](r, nil, nil, "text/plain", uint64(50), uint8(1), int64(60), int(7), int64(-3), 2.5, []byte("x"), true, "50", "065", "0", "65535", "application/cose; cose-type=\"cose-sign1\"", "1/2", uint64(65535), uint64(65536), uint16(0))
 		p.Location = mon.Pick(r, "", "", "", "https://example.com/a", "loc", "https://bucket.example/50%off.bin", "s3://my bucket/key", "://", "file:///tmp/x", "urn:uuid:6e8bc430-9c3a-11d9-9669-0800200c9a66", "http://[::1]:80/%zz", "h\u00e9llo://\u65e5\u672c", " leading-space", " ", "\t\n", "\u00a0", "\u2003\u2028", "\x00")
 		if i%11 == 3 && rawMode > 2 {
 			// the caller's protected map already holds exactly the governed values (and no alg)
